@@ -11,6 +11,7 @@ import GT.Lemmas.Irrep.N3Det
 import GT.Properties.C17_n4
 import GT.Properties.C17_n5
 import GT.Properties.C17_n6
+import GT.Properties.C17_nd
 import GT.Lemmas.So31
 import GT.Lemmas.So31Det
 import Mathlib.LinearAlgebra.Matrix.NonsingularInverse
@@ -429,6 +430,83 @@ theorem oToPgl_hom_up_to_sign (hr : IsSqrt r) (A B : Matrix (Fin 2) (Fin 2) K)
   rcases oToPgl_recovers hr A hA with ea | ea <;>
   rcases oToPgl_recovers hr B hB with eb | eb <;>
   rw [e, ea, eb] <;> simp
+
+/-! ### the matrices `±sl2_to_so21 A` form a group, and `o_to_pgl` is a homomorphism to `PGL(2)` on it -/
+
+/-- the set on which the last clause is stated: `{ε · sl2_to_so21 A : ε = ±1, det A ≠ 0}`
+(for `det A = ±1` over ℝ: the images of `SL^±(2,ℝ)` and their negatives) -/
+def pmImage (K : Type*) [Field K] : Set (Matrix (Fin 3) (Fin 3) K) :=
+  {M | ∃ (A : Matrix (Fin 2) (Fin 2) K) (ε : K), A.det ≠ 0 ∧ (ε = 1 ∨ ε = -1) ∧ M = ε • sl2ToSo21 A}
+
+/-- the identity belongs to it -/
+theorem pmImage_one : (1 : Matrix (Fin 3) (Fin 3) K) ∈ pmImage K :=
+  ⟨1, 1, by simp, Or.inl rfl, by rw [one_smul, sl2ToSo21_one two_ne_zero]⟩
+
+/-- it is closed under products -/
+theorem pmImage_mul {M N : Matrix (Fin 3) (Fin 3) K} (hM : M ∈ pmImage K) (hN : N ∈ pmImage K) :
+    M * N ∈ pmImage K := by
+  obtain ⟨A, ε, hA, hε, rfl⟩ := hM
+  obtain ⟨B, δ, hB, hδ, rfl⟩ := hN
+  refine ⟨A * B, ε * δ, by rw [Matrix.det_mul]; exact mul_ne_zero hA hB, ?_, ?_⟩
+  · rcases hε with rfl | rfl <;> rcases hδ with rfl | rfl <;> simp
+  · rw [Matrix.smul_mul, Matrix.mul_smul, smul_smul, sl2ToSo21_mul two_ne_zero]
+
+/-- … and under inverses: every element has a two-sided inverse in the set -/
+theorem pmImage_inv {M : Matrix (Fin 3) (Fin 3) K} (hM : M ∈ pmImage K) :
+    ∃ N ∈ pmImage K, M * N = 1 ∧ N * M = 1 := by
+  obtain ⟨A, ε, hA, hε, rfl⟩ := hM
+  have hu : IsUnit A.det := isUnit_iff_ne_zero.2 hA
+  have hAi : A⁻¹.det ≠ 0 := by
+    have : A.det * A⁻¹.det = 1 := by rw [← Matrix.det_mul, Matrix.mul_nonsing_inv A hu, Matrix.det_one]
+    exact fun h => by rw [h, mul_zero] at this; exact zero_ne_one this
+  have hεε : ε * ε = 1 := by rcases hε with rfl | rfl <;> simp
+  refine ⟨ε • sl2ToSo21 A⁻¹, ⟨A⁻¹, ε, hAi, hε, rfl⟩, ?_, ?_⟩
+  · rw [Matrix.smul_mul, Matrix.mul_smul, smul_smul, hεε, one_smul, ← sl2ToSo21_mul two_ne_zero,
+      Matrix.mul_nonsing_inv A hu, sl2ToSo21_one two_ne_zero]
+  · rw [Matrix.smul_mul, Matrix.mul_smul, smul_smul, hεε, one_smul, ← sl2ToSo21_mul two_ne_zero,
+      Matrix.nonsing_inv_mul A hu, sl2ToSo21_one two_ne_zero]
+
+/-- `o_to_pgl` is a homomorphism to `PGL(2) = GL(2)/±` on that group: products go to products up
+to sign, the identity to `±1`, and every value has non-zero determinant -/
+theorem oToPgl_hom_on_pmImage (hr : IsSqrt r) {M N : Matrix (Fin 3) (Fin 3) K}
+    (hM : M ∈ pmImage K) (hN : N ∈ pmImage K) :
+    (oToPgl r (M * N) = oToPgl r M * oToPgl r N ∨ oToPgl r (M * N) = -(oToPgl r M * oToPgl r N)) ∧
+    (oToPgl r (1 : Matrix (Fin 3) (Fin 3) K) = 1 ∨ oToPgl r (1 : Matrix (Fin 3) (Fin 3) K) = -1) ∧
+    (oToPgl r M).det ≠ 0 := by
+  obtain ⟨A, ε, hA, hε, rfl⟩ := hM
+  obtain ⟨B, δ, hB, hδ, rfl⟩ := hN
+  refine ⟨oToPgl_hom_up_to_sign_pm hr A B hA hB ε δ hε hδ, ?_, ?_⟩
+  · have := oToPgl_recovers hr (1 : Matrix (Fin 2) (Fin 2) K) (by simp)
+    rwa [sl2ToSo21_one two_ne_zero] at this
+  · rcases oToPgl_recovers_pm hr A hA ε hε with e | e
+    · rw [e]; exact hA
+    · rw [e, Matrix.det_neg]; simpa using hA
+
+/-- `sl2_to_so21` is injective up to sign (so `SL(2)/±1` embeds): a consequence of the recovery -/
+theorem sl2ToSo21_injective_pm (hr : IsSqrt r) (A B : Matrix (Fin 2) (Fin 2) K) (hA : A.det ≠ 0)
+    (hB : B.det ≠ 0) (h : sl2ToSo21 A = sl2ToSo21 B) : A = B ∨ A = -B := by
+  rcases oToPgl_recovers hr A hA with ea | ea <;> rcases oToPgl_recovers hr B hB with eb | eb
+  · left; rw [← ea, h, eb]
+  · right; rw [← ea, h, eb]
+  · right; rw [h, eb] at ea; rw [ea, neg_neg]
+  · left; rw [h, eb] at ea; exact (neg_injective ea).symm
+
+/-- the image of `SL(2)` preserves the time orientation: the `(0,0)` entry is `≥ 1`, so
+`sl2_to_so21(SL(2,ℝ)) ⊆ SO⁺(2,1)` (with `sl2ToSo21_so21`) -/
+theorem sl2ToSo21_time_pos (A : Matrix (Fin 2) (Fin 2) K) (h : A.det = 1) : 1 ≤ sl2ToSo21 A 0 0 := by
+  rw [sl2ToSo21_explicit two_ne_zero]
+  rw [Matrix.det_fin_two] at h
+  simp only [Matrix.of_apply, Matrix.cons_val', Matrix.cons_val_zero, Matrix.empty_val', Matrix.cons_val_fin_one]
+  rw [le_div_iff₀ (by norm_num : (0 : K) < 2)]
+  nlinarith [sq_nonneg (A 0 0 - A 1 1), sq_nonneg (A 0 1 + A 1 0)]
+
+/- NOT PROVED (stated for the record): surjectivity `SO⁺(2,1) ⊆ sl2_to_so21(SL(2,ℝ))`, i.e. that
+`pmImage ℝ` restricted to `det A = ±1` is all of `O(2,1)`.  It needs the Veronese relations of the
+conjugated matrix to be derived from `MᵀJM = J`, `det M = 1`, `M₀₀ > 0` (a Gröbner-basis style
+computation; no `polyrith` in this image).  What is proved: the set is a group (`pmImage_one/mul/inv`),
+it lies in `O(2,1)` (`sl2ToSo21_isIso`), `SL(2)` lands in `SO⁺(2,1)` (`sl2ToSo21_so21`,
+`sl2ToSo21_time_pos`), the map is injective modulo `±1`, and `o_to_pgl` is its inverse and a
+homomorphism to `PGL(2)` on the group. -/
 
 /-! ### the `bilinear_form=` option: any form of signature (2,1), under the `diagonalize_form` contract -/
 
